@@ -155,17 +155,41 @@ Proof.
   destruct (i32_of w x0 y z =? CANCEL_REQUEST_CODE); injection H as <- <-; cbn [length]; lia.
 Qed.
 
-(** * parse_params *)
-Lemma parse_params_panic_iff : forall s, s <> [] -> (parse_params s = Panic <-> last s 1%N <> 0%N).
+(** * parse_params (after 5c1953d: no panic is left in it) *)
+Lemma params_walk_never_panic : forall fuel s acc, params_walk fuel s acc <> Panic.
 Proof.
-  intros s Hs. unfold parse_params. destruct s as [|x s']; [congruence|].
-  destruct (N.eqb_spec (last (x :: s') 1%N) 0) as [E|E].
-  - split; [|congruence]. destruct (Nat.even _ && _)%bool; discriminate.
-  - split; [intros _; exact E|reflexivity].
+  induction fuel as [|f IH]; intros s acc; cbn [params_walk]; [discriminate|].
+  destruct s as [|x s']; [discriminate|].
+  destruct (split0 (x :: s')) as [[name r1]|]; [|discriminate].
+  destruct name as [|n0 name']; [discriminate|].
+  destruct (split0 r1) as [[v r2]|]; [apply IH|discriminate].
+Qed.
+
+Lemma parse_params_never_panic : forall s, parse_params s <> Panic.
+Proof.
+  intros s. unfold parse_params. pose proof (params_walk_never_panic (S (length s)) s []) as H.
+  destruct (params_walk (S (length s)) s []) as [[|p l]| |]; congruence.
 Qed.
 
 Lemma parse_params_empty : parse_params [] = Err.
 Proof. reflexivity. Qed.
+
+(** a first string without its terminator: Err (it used to run off the end of the buffer) *)
+Lemma parse_params_unterminated : forall s, s <> [] -> ~ In 0%N s -> parse_params s = Err.
+Proof.
+  intros s Hs H. unfold parse_params. cbn [params_walk]. destruct s as [|x s']; [congruence|].
+  apply split0_none_no_nul in H. rewrite H. reflexivity.
+Qed.
+
+(** a name whose value is cut off: Err as well *)
+Lemma parse_params_value_unterminated : forall name v, name <> [] -> ~ In 0%N name -> ~ In 0%N v ->
+  parse_params (name ++ 0%N :: v) = Err.
+Proof.
+  intros name v Hn Hi Hv. unfold parse_params. cbn [params_walk].
+  destruct (name ++ 0%N :: v) as [|x s'] eqn:E; [destruct name; discriminate|]. rewrite <- E.
+  rewrite split0_app by exact Hi. destruct name as [|n0 name']; [congruence|].
+  apply split0_none_no_nul in Hv. rewrite Hv. reflexivity.
+Qed.
 
 (** * password message *)
 Section Password.
